@@ -146,6 +146,7 @@ type run struct {
 	ctxs    []context.Context
 	cancels []context.CancelFunc
 
+	pw        sync.Mutex // serialises the peer's sends (event + bytes)
 	mu        sync.Mutex
 	roles     map[int64]int // goroutine id -> writer (caller 1.., notifier 11..)
 	log       []event
@@ -396,21 +397,24 @@ func (r *run) reply(c int) {
 	}
 	r.replied[c] = true
 	id := r.idOf[c]
-	r.log = append(r.log, event{Seq: jsonrpc2.VerifSeq(), E: "reply", W: c})
 	r.mu.Unlock()
-	r.peerWrite(fmt.Sprintf(`{"jsonrpc":"2.0","id":%s,"result":%q}`, jsonID(id), token(c)))
+	r.peerSend("reply", c, fmt.Sprintf(`{"jsonrpc":"2.0","id":%s,"result":%q}`, jsonID(id), token(c)))
 }
 
 // jsonID turns the %q form of an id ("#3" or "\"abc\"") into its JSON form
 func jsonID(q string) string { return strings.TrimPrefix(q, "#") }
 
-func (r *run) peerWrite(body string) {
+// peerSend logs the event and puts the frame on the wire in one step: the order of the peer's events in
+// the trace is the order of its messages in the byte stream.
+func (r *run) peerSend(ev string, w int, body string) {
+	r.pw.Lock()
+	defer r.pw.Unlock()
+	r.add(event{Seq: jsonrpc2.VerifSeq(), E: ev, W: w})
 	r.toConn.Write([]byte(fmt.Sprintf("Content-Length: %d\r\n\r\n%s", len(body), body)))
 }
 
 func (r *run) peerNotify() {
-	r.add(event{Seq: jsonrpc2.VerifSeq(), E: "pnotify"})
-	r.peerWrite(`{"jsonrpc":"2.0","method":"peer/note","params":"é"}`)
+	r.peerSend("pnotify", 0, `{"jsonrpc":"2.0","method":"peer/note","params":"é"}`)
 }
 
 func (r *run) peerCall() {
@@ -418,9 +422,8 @@ func (r *run) peerCall() {
 	r.mu.Lock()
 	r.pcallsOut++
 	k := r.pcallsOut
-	r.log = append(r.log, event{Seq: jsonrpc2.VerifSeq(), E: "pcall"})
 	r.mu.Unlock()
-	r.peerWrite(fmt.Sprintf(`{"jsonrpc":"2.0","id":"p%d","method":"peer/ping","params":%d}`, k, k))
+	r.peerSend("pcall", 0, fmt.Sprintf(`{"jsonrpc":"2.0","id":"p%d","method":"peer/ping","params":%d}`, k, k))
 }
 
 // peerLoop reads what the conn writes with an independent minimal frame parser.
